@@ -3,8 +3,10 @@
 from __future__ import annotations
 
 import itertools
+import json
 import os
 import random
+import re
 import sys
 
 sys.path.insert(0, os.environ.get("VERIF_REPO", "/repo"))
@@ -30,6 +32,134 @@ def hist_program(fam: str, port: int, kinds: str, retries: int) -> dict:
         calls.append({"api": "read_setting", "args": [f"modbus-{a}"]})
     return {"inv": [{"family": fam, "port": port, "sim": sim, "retries": retries, "timeout": 1}], "calls": calls,
             "case": {"case": "hist", "kinds": kinds, "fam": fam, "port": port}}
+
+
+# ------------------------------------------------------------------------------------------------
+# discover() as a machine (spec/Discover.tla): predicted phases and result vs the real ones
+# ------------------------------------------------------------------------------------------------
+def disc_envs() -> list[dict]:
+    out = []
+    for tag in ("silent", "ET", "ES", "DT", "other"):
+        for once in (False, True):
+            for bits in itertools.product((False, True), repeat=5):
+                out.append({"tag": tag, "once": once, "info": {"ET": bits[0], "DT": bits[1]},
+                            "rt": {"ET": bits[2], "DT": bits[3], "ES": bits[4]}})
+    return out
+
+
+def disc_program(env: dict) -> dict:
+    serial = {"ET": serial_for("ETU"), "DT": serial_for("DTU"), "ES": "95048ESU000W0000", "other": "9010KXYZ000W0000"}.get(env["tag"])
+    aa = {"mute": True} if env["tag"] == "silent" else {"info": list(es_info(serial)), "info_once": env["once"]}
+    if not env["rt"]["ES"]:
+        aa["mute_runtime"] = True
+    silent = []
+    if not env["info"]["ET"]:
+        silent.append([35000, 35099])
+    if not env["rt"]["ET"]:
+        silent.append([35100, 39999])
+    if not env["info"]["DT"]:
+        silent.append([30001, 30099])
+    if not env["rt"]["DT"]:
+        silent.append([30100, 30400])
+    regs = {}
+    regs.update(device_regs("ET", serial_for("ETU"), 10000))
+    regs.update(device_regs("DT", serial_for("DTU"), 0))
+    sim = {"regs": regs, "silent": silent, "aa55": aa}
+    return {"inv": [{"family": None, "sim": sim}], "delay": 0,
+            "calls": [{"api": "goodwe.discover", "args": ["inv0"], "kw": {"retries": 0, "timeout": 1}}],
+            "case": {"case": "disc", "env": env}}
+
+
+def _phase_of(req: bytes, first_ident: list) -> str:
+    from . import frames as F
+    if req[:4] == b"\xaa\x55\xc0\x7f":
+        if req[4] == 1 and req[5] == 2:
+            if not first_ident[0]:
+                first_ident[0] = True
+                return "ident"
+            return "ES.info"
+        return "ES.rt" if (req[4] == 1 and req[5] == 6) else "ES.other"
+    p = F.parse_request("rtu", req) or {}
+    reg = p.get("reg", 0)
+    if 35000 <= reg <= 35099 or 45000 <= reg <= 48999:
+        return "ET.info"
+    if 35100 <= reg <= 39999:
+        return "ET.rt"
+    if 30001 <= reg <= 30099 or reg == 0x9CED:
+        return "DT.info"
+    if 30100 <= reg <= 30400:
+        return "DT.rt"
+    return f"?{reg}"
+
+
+def run_disc(prog: dict) -> dict:
+    from .inv_driver import run_program
+    tr = run_program(prog)
+    phases: list[str] = []
+    first = [False]
+    newcall = False
+    ret = {}
+    for ev in tr["ev"]:
+        if ev["e"] == "XCALL":
+            newcall = True
+        elif ev["e"] == "SEND" and newcall:
+            newcall = False
+            ph = _phase_of(bytes(ev["data"]), first)
+            # consecutive requests of one phase are one phase; the identification command is a phase of its own every time
+            if not phases or phases[-1] != ph or ph in ("ident", "ES.info"):
+                phases.append(ph)
+        elif ev["e"] == "RET":
+            ret = ev
+    fam = ""
+    if ret.get("ok"):
+        m = re.search(r"'family': \{[^}]*'s': '(\w+)'", str(ret.get("val")))
+        fam = m.group(1) if m else str(ret.get("val"))[:40]
+    c = dict(prog["case"])
+    c.update(phases=phases, result=fam if ret.get("ok") else "error", exc=ret.get("exc", ""), fam=bool(ret.get("fam", False)),
+             ok=bool(ret.get("ok")), status=tr["status"])
+    return c
+
+
+def compare_discover(run: Run) -> None:
+    import re
+    envs = disc_envs()
+    res = engine.parallel_map("harness.checks_api", "run_disc", [disc_program(e) for e in envs], procs=16, chunk=10)
+    path = os.path.join(run.workdir, "disc_envs.json")
+    tlc.write_json(path, envs)
+    r = tlc.run_tlc("PredictDiscover", env={"VERIF_CFGS": path}, workers=4, timeout=600)
+    if not r["ok"]:
+        raise engine.MachineryError("PredictDiscover failed\n" + r["stdout"][-2000:])
+    pred = {}
+    for mm in re.finditer(r'DISC\|(\d+)\|(<<.*?>>)\|(\w+)', r["stdout"].replace('\\"', '"')):
+        pred[int(mm.group(1))] = (re.findall(r'"([A-Za-z.]+)"', mm.group(2)), mm.group(3))
+    drift = 0
+    for k, (env, c) in enumerate(zip(envs, res), 1):
+        if c["status"] != "ok":
+            raise engine.MachineryError("discover program did not finish")
+        want = pred.get(k)
+        if want is not None:
+            # on the wire two consecutive phases of the same kind (the tagged family's device info failing, then the same
+            # family probed first) cannot be told apart from one phase with several requests: compared after merging
+            merged = []
+            for ph in want[0]:
+                if not merged or merged[-1] != ph or ph in ("ident", "ES.info"):
+                    merged.append(ph)
+            want = (merged, want[1])
+        got = (c["phases"], c["result"])
+        if want is None or list(want[0]) != got[0] or want[1] != got[1]:
+            drift += 1
+            if drift <= 4:
+                run.notes.append(f"DRIFT: Discover.tla predicts {want} for environment {env}, the code did {got}")
+        if not c["ok"] and not c["fam"]:
+            run.violation("C09.Family", {"what": "discover:" + json.dumps(env, sort_keys=True), "exc": c["exc"]}, {"apicase": c}) \
+                if run.prop == "C09" else None
+    os.remove(path)
+    run.cov["states"] += r.get("distinct", 0)
+    run.cov["discover_environments"] = len(envs)
+    run.cov["discover_drift"] = drift
+    run.add_mc("MC_Discover", tlc.run_tlc("MC_Discover", cfg="MC_Discover", workers=4, timeout=600))
+    if drift:
+        run.notes.append(f"DRIFT: {drift} of {len(envs)} environments: discover() does not follow Discover.tla (not a violation by itself)")
 
 
 def life_program(fam: str, port: int, ka: bool, kinds: str) -> dict:
@@ -239,6 +369,8 @@ def extend(run: Run, prop: str, tier: str, rnd: random.Random) -> None:
             eprogs.append(entry_program("connect_discover", t, r, None, answer="DTU"))
         eprogs.append(entry_program("search", 1, 0, None))
         cases += engine.parallel_map("harness.checks_api", "run_entry", eprogs, procs=16, chunk=2)
+        # which probes discover() sends at all, in which order: the machine Discover.tla, all 320 environments
+        compare_discover(run)
     for c in cases:
         if c.get("status") != "ok":
             raise engine.MachineryError("API program did not finish: " + str(c.get("what", c.get("kinds"))))
